@@ -124,7 +124,7 @@ Lemma step_keeps_shape cls w o :
   def_shape (w_def w) = true -> def_shape (w_def (fst (step cls w o))) = true.
 Proof.
   intros Hs. destruct dschema_form as [cn [a [b [ct [sp [Hd Hna]]]]]].
-  destruct o as [[|] sub arg|[|] p v|arg|kw|]; unfold step.
+  destruct o as [[|] sub arg|[|] p v|arg| |kw]; unfold step.
   - pose proof (update_at_shape sp Hna cn a b ct sub (w_def w) arg Hs) as H. rewrite <- Hd in H.
     destruct (update_at defaults_schema (w_def w) sub arg) as [t e]. simpl in *. exact H.
   - destruct (update_at (class_schema cls) (w_obj w) sub arg) as [t e]. simpl. exact Hs.
